@@ -149,12 +149,38 @@ class C04(Property):
             n, k = n * 2, k * 3
         return n, k
 
+
+    CHUNK = 8
+
+    def _runs_for(self, ctx, pre, items, i, job_of, **kw):
+        """runs of item i; the items of a chunk run in parallel worker processes (wfcheck.run_many)"""
+        if i not in pre:
+            chunk = items[i:i + self.CHUNK]
+            outs = wfcheck.run_many([job_of(it) for it in chunk], ctx.scratch, **kw)
+            pre.update({i + j: o for j, o in enumerate(outs)})
+        return pre.pop(i)
+
     def explore(self, ctx: Ctx) -> None:
         rng = ctx.rng
         n, k = self._plan(ctx)
         lines, metas = [], []
         hangs = 0
+        items, pre = [], {}
         for i in range(n):
+            feats = {"exec": 4} if rng.random() < 0.3 else ({"loop": 3} if rng.random() < 0.3 else None)
+            spec = wfgen.gen_spec(rng, size=rng.randint(2, 12), features=feats)
+            if i < len(wfgen.CORPUS):
+                spec = json.loads(json.dumps(wfgen.CORPUS[i]))
+            failing = rng.random() < 0.5
+            fspec = wfgen.choose_failure(rng, spec) if failing else None
+            if fspec is None:
+                failing = False
+            nc = len(wfgen.CORPUS)
+            if nc <= i < nc + len(FAIL_CORPUS):
+                fspec, failing = json.loads(json.dumps(FAIL_CORPUS[i - nc])), True
+                spec = fspec
+            items.append((spec, failing, fspec or spec, [rng.randrange(1 << 30) for _ in range(k)]))
+        for i, (spec, failing, run_spec, seeds) in enumerate(items):
             if ctx.out_of_time():
                 ctx.extra["incomplete"] = True
                 break
@@ -166,24 +192,10 @@ class C04(Property):
             if hangs >= 4:
                 ctx.notes.append("stopped generating after 4 hanging runs (each costs the whole watchdog time)")
                 break
-            feats = {"exec": 4} if rng.random() < 0.3 else ({"loop": 3} if rng.random() < 0.3 else None)
-            spec = wfgen.gen_spec(rng, size=rng.randint(2, 12), features=feats)
-            if i < len(wfgen.CORPUS):
-                spec = json.loads(json.dumps(wfgen.CORPUS[i]))
+            if i < len(wfgen.CORPUS) + len(FAIL_CORPUS):
                 ctx.corpus_replayed += 1
-            failing = rng.random() < 0.5
-            fspec = wfgen.choose_failure(rng, spec) if failing else None
-            if fspec is None:
-                failing = False
-            nc = len(wfgen.CORPUS)
-            if nc <= i < nc + len(FAIL_CORPUS):
-                fspec, failing = json.loads(json.dumps(FAIL_CORPUS[i - nc])), True
-                spec = fspec
-                ctx.corpus_replayed += 1
-            run_spec = fspec or spec
-            seeds = [rng.randrange(1 << 30) for _ in range(k)]
             # default asyncio order first, then the PRNG schedules; a hanging workflow is not run again
-            runs = wfcheck.run_schedules(run_spec, seeds, ctx.scratch, timeout=20.0, stop_on_hang=True)
+            runs = self._runs_for(ctx, pre, items, i, lambda it: {"spec": it[2], "seeds": it[3]}, timeout=20.0, stop_on_hang=True)
             hangs += sum(1 for r in runs if r["outcome"]["kind"] == "hang" and not any(
                 k == KNOWN_LOOP_HANG for k, _ in oracle(run_spec, r, failing)))
             fail_node = _fail_node(run_spec)
